@@ -47,6 +47,7 @@ Record config := mkConfig {
   c_hook_cleanups : hookname -> nat -> list (nat * bool); (* cleanups the hook registers: (id, raises) *)
   c_wip : nat;                               (* the tag "wip" *)
   c_cont : bool;                             (* Scenario.continue_after_failed_step *)
+  c_aborts : hookname -> nat -> bool;        (* this hook invocation calls context.abort() (before it returns or raises) *)
   c_excl : nat -> bool                       (* explicit exclusion: the feature's before_feature hook calls
                                                 element.skip() on every element that carries such a tag;
                                                 inside a feature: the exclusion tags that are in force *)
@@ -61,7 +62,7 @@ Definition sel (cfg : config) (eff : list nat) : bool := c_expr cfg eff && negb 
 
 Definition set_excl (cfg : config) (x : nat -> bool) : config :=
   mkConfig (c_dry cfg) (c_stop cfg) (c_show_skipped cfg) (c_expr cfg) (c_hooks cfg) (c_faults cfg)
-           (c_hook_cleanups cfg) (c_wip cfg) (c_cont cfg) x.
+           (c_hook_cleanups cfg) (c_wip cfg) (c_cont cfg) (c_aborts cfg) x.
 
 (* ------------------------------------------------------------------ events *)
 Inductive fevent :=
@@ -74,6 +75,7 @@ Inductive event :=
 | EStep (k : skind) (sid : nat) (scen : nat) (wip : bool) (* the step function is called; wip: scenario carries @wip *)
 | EUndef (sid : nat)                               (* runner.undefined_steps.append *)
 | ECleanup (cid : nat) (raised : bool)
+| EAbort (h : hookname) (key : nat)                 (* the hook called context.abort() *)
 | EFmt (f : fevent).
 
 (* ------------------------------------------------------------------ results *)
@@ -130,9 +132,11 @@ Definition run_hook (cfg : config) (st : rstate) (h : hookname) (key : nat)
   if c_dry cfg || negb (c_hooks cfg h) then (st, false, [])
   else
     let st1 := add_cleanups st (c_hook_cleanups cfg h key) in
+    let ab := c_aborts cfg h key in
+    let evab := if ab then [EAbort h key] else [] in
     if c_faults cfg h key
-    then (set_aborted st1 (is_all_hook h), true, [EHook h key true])
-    else (st1, false, [EHook h key false]).
+    then (set_aborted st1 (is_all_hook h || ab), true, EHook h key true :: evab)
+    else (set_aborted st1 ab, false, EHook h key false :: evab).
 
 (* a list of tag hooks; returns whether any raised *)
 Fixpoint run_tag_hooks (cfg : config) (st : rstate) (h : hookname) (tags : list nat)
